@@ -438,7 +438,9 @@ func C01(c *Ctx) {
 	c.Rule(r3, "every write entry point through which a caller-supplied key reaches the memtable (DB.setEntry, DB.SetVersionedEntry, Txn.modify) rejects empty keys and keys longer than maxKeySize, because memtable nodes and table headers store the key length in 16 bits")
 	maxKey := int64(-1)
 	if k := c.P.LookupObj("", "maxKeySize"); k != nil {
-		if kc, ok := k.(interface{ Val() interface{ ExactString() string } }); ok {
+		if kc, ok := k.(interface {
+			Val() interface{ ExactString() string }
+		}); ok {
 			_ = kc
 		}
 	}
